@@ -673,3 +673,24 @@ Proof. intros H. destruct (decode_reserved_shape d r H) as (mt & f & ->). apply 
 Lemma any_message_wire mt f : 0 <= mt <= 255 -> len f <= 250 ->
   reserved_new mt f = Ok (rmsg mt f) /\ wire_ok (rmsg mt f) mt f.
 Proof. intros Hm Hl. exact (conj (reserved_new_ok mt f Hm Hl) (rmsg_wire_ok mt f Hm Hl)). Qed.
+
+(* C09: what follows the message-to-user TLV does not matter *)
+Lemma decode_reserved_suffix mt f s :
+  0 <= mt <= 255 -> len f <= 250 ->
+  decode_reserved (reserved_layout mt f ++ s) = decode_reserved (reserved_layout mt f).
+Proof.
+  intros Hm Hl. rewrite decode_reserved_layout by assumption.
+  rewrite <- (app_nil_r (reserved_layout mt f)). rewrite decode_reserved_layout by assumption. reflexivity.
+Qed.
+
+(* C10: every strict prefix of a packed reserved message is refused with a documented error *)
+Lemma decode_reserved_prefix_rejected mt f n :
+  len f <= 250 -> (n < length (reserved_layout mt f))%nat ->
+  exists e, decode_reserved (firstn n (reserved_layout mt f)) = Err e /\ documented e = true.
+Proof.
+  intros Hl Hn. unfold reserved_layout, msg_layout in *.
+  destruct (wrap_prefix_rejected T_MESSAGE_TO_USER (reserved_value mt f) n) as (e & He & Hd);
+    [change (reserved_value mt f) with (rv mt f); rewrite rv_len; lia | assumption |].
+  exists e. unfold decode_reserved, msg_unpack. change TLV_MESSAGE_TO_USER with T_MESSAGE_TO_USER.
+  rewrite He. split; [reflexivity|assumption].
+Qed.
